@@ -16,7 +16,9 @@ TRUE = ('true',)
 
 
 def atoms(c, out):
-    if c[0] in ('and', 'or'):
+    if c[0] == 'okcond':
+        atoms(c[1], out)
+    elif c[0] in ('and', 'or'):
         for x in c[1]:
             atoms(x, out)
     elif c[0] == 'not':
